@@ -235,14 +235,15 @@ encloses, over any library of the tree fragment (`Djc.Proofs.Tree.GoodLib`): the
 `<template djc-render-id>` placeholder — every one of them was replaced by its instance's output before the loop
 ended. -/
 theorem no_placeholder_survives_component_trees (env : Djc.Render.Env) (hlib : Djc.Proofs.Tree.GoodLib env) (fuel : Nat)
-    (name : Djc.Tpl.Str) (kwargs : List (Djc.Tpl.Str × Djc.Tpl.Expr)) (only dyn : Bool) (ctx : Djc.Tpl.Ctx)
+    (name : Djc.Tpl.Str) (kwargs : List (Djc.Tpl.Str × Djc.Tpl.Expr)) (only dyn : Bool) (body : List Djc.Tpl.Node) (ctx : Djc.Tpl.Ctx)
     (w w' : Djc.Render.World) (toks : List Djc.Tpl.Tok)
-    (hd : Djc.Render.isDynName name = false) (hc : Djc.Proofs.Plain.ctxFree ctx = true) (hw : Djc.Proofs.Tree.WInv w)
+    (hd : Djc.Render.isDynName name = false) (hb : Djc.Proofs.Tree.fbody body = true) (hc : Djc.Proofs.Plain.ctxFree ctx = true)
+    (hw : Djc.Proofs.Tree.WInv w)
     (hext : Djc.Render.isExtracting ctx = false)
     (hpar : Djc.Proofs.Tree.parentOf (if only || env.isolated then Djc.Render.isolatedCopy ctx else ctx) = none)
-    (h : (Djc.Render.renderCompTag env fuel name kwargs only dyn [] ctx).run.run w = (.ok toks, w')) :
+    (h : (Djc.Render.renderCompTag env fuel name kwargs only dyn body ctx).run.run w = (.ok toks, w')) :
     Djc.Proofs.Tree.holeIds toks = [] :=
-  (Djc.Proofs.Tree.tree_root_tag env hlib fuel name kwargs only dyn ctx w w' toks hd hc hw hext hpar h).2
+  (Djc.Proofs.Tree.tree_root_tag env hlib fuel name kwargs only dyn body ctx w w' toks hd hb hc hw hext hpar h).2
 
 example : Djc.Proofs.Tree.exSummary false = true := by decide +kernel
 
